@@ -36,14 +36,20 @@ structure Inv (c : Ctx) : Prop where
   logId : ∀ e ∈ c.log, e.id = mark (c.arms.getD e.tag [])
   ordered : c.log.Pairwise (fun a b => a.tag = b.tag → a.ok = false)
   armsLen : c.arms.length = c.nextTag
+  /-- every non-empty armed request still stands in a slot, or the transport was called for it, or it was
+      discarded while the transport was detached -/
+  covered : c.ptr = true → ∀ t, t < c.nextTag → c.arms.getD t [] ≠ [] →
+    (∃ s r, c.slot s = some r ∧ r.tag = t) ∨ (∃ e ∈ c.log, e.tag = t) ∨ t ∈ c.lost
+  /-- requests are discarded only after the transport has been detached -/
+  lostDet : c.lost ≠ [] → c.send = false
 
 theorem inv_create (len : Nat) (ptr : Bool) (c : Ctx) (h : create len ptr = some c) : Inv c := by
   unfold create at h
   split at h
   · simp at h
   · simp at h
-    have hc : c.cur = none ∧ c.handles = [] ∧ c.log = [] ∧ c.nextTag = 0 ∧ c.arms = [] := by subst h; simp
-    obtain ⟨h1, h2, h3, h4, h5⟩ := hc
+    have hc : c.cur = none ∧ c.handles = [] ∧ c.log = [] ∧ c.nextTag = 0 ∧ c.arms = [] ∧ c.lost = [] := by subst h; simp
+    obtain ⟨h1, h2, h3, h4, h5, h6⟩ := hc
     have hs : ∀ s r, ¬ (c.slot s = some r) := by
       intro s r h
       cases s <;> simp [Ctx.slot, h1, h2] at h
@@ -56,6 +62,8 @@ theorem inv_create (len : Nat) (ptr : Bool) (c : Ctx) (h : create len ptr = some
     · intro e he; simp [h3] at he
     · simp [h3]
     · simp [h4, h5]
+    · intro _ t ht; rw [h4] at ht; omega
+    · intro hl; exact absurd h6 hl
 
 /-- an attempt to answer the request `r` standing in slot `s0`: at most one call is logged, it carries
     `r`'s tag and marked id, an accepted call empties the slot, otherwise the slot is emptied or keeps
@@ -64,7 +72,10 @@ theorem inv_answer (c c' : Ctx) (s0 : Slot) (r : Req) (hinv : Inv c) (h0 : c.slo
     (hother : ∀ s, s ≠ s0 → c'.slot s = c.slot s)
     (hnext : c'.nextTag = c.nextTag) (harms : c'.arms = c.arms)
     (hlog : c'.log = c.log ∨ ∃ msg ok, c'.log = c.log ++ [⟨r.tag, mark r.val, msg, ok⟩] ∧ (ok = true → c'.slot s0 = none))
-    (hslot : c'.slot s0 = none ∨ ∃ r', c'.slot s0 = some r' ∧ r'.tag = r.tag ∧ mark r'.val = mark r.val) :
+    (hslot : c'.slot s0 = none ∨ ∃ r', c'.slot s0 = some r' ∧ r'.tag = r.tag ∧ mark r'.val = mark r.val)
+    (hlost : c'.lost = c.lost ∨ (c'.lost = c.lost ++ [r.tag] ∧ c.send = false))
+    (hsend : c'.send = c.send ∨ c'.send = false) (hptr : c'.ptr = c.ptr)
+    (hdone : c.ptr = true → c'.slot s0 = none → (∃ e ∈ c'.log, e.tag = r.tag) ∨ r.tag ∈ c'.lost) :
     Inv c' := by
   -- every request of c' sits in the same slot of c with the same tag and marked id
   have hback : ∀ s r2, c'.slot s = some r2 → ∃ r1, c.slot s = some r1 ∧ r1.tag = r2.tag ∧ mark r1.val = mark r2.val := by
@@ -126,19 +137,54 @@ theorem inv_answer (c c' : Ctx) (s0 : Slot) (r : Req) (hinv : Inv c) (h0 : c.slo
       | false => rfl
       | true => exact absurd htag.symm (hinv.okDead a ha hok s0 r h0)
   · rw [harms, hnext]; exact hinv.armsLen
+  · intro hp t ht hne
+    rw [hptr] at hp
+    rw [hnext] at ht; rw [harms] at hne
+    have hlmono : ∀ x, x ∈ c.lost → x ∈ c'.lost := by
+      intro x hx
+      rcases hlost with h | ⟨h, _⟩ <;> rw [h]
+      · exact hx
+      · exact List.mem_append_left _ hx
+    have hlogmono : ∀ e, e ∈ c.log → e ∈ c'.log := by
+      intro e he
+      rcases hlog with h | ⟨_, _, h, _⟩ <;> rw [h]
+      · exact he
+      · exact List.mem_append_left _ he
+    rcases hinv.covered hp t ht hne with ⟨s, r1, h1, h2⟩ | ⟨e, he, h2⟩ | hl
+    · by_cases hs : s = s0
+      · subst hs
+        rw [h0] at h1; cases h1
+        rcases hslot with hn | ⟨r', g1, g2, _⟩
+        · rcases hdone hp hn with ⟨e, he, h3⟩ | h3
+          · exact Or.inr (Or.inl ⟨e, he, by omega⟩)
+          · exact Or.inr (Or.inr (h2 ▸ h3))
+        · exact Or.inl ⟨s, r', g1, by omega⟩
+      · exact Or.inl ⟨s, r1, by rw [hother s hs]; exact h1, h2⟩
+    · exact Or.inr (Or.inl ⟨e, hlogmono e he, h2⟩)
+    · exact Or.inr (Or.inr (hlmono t hl))
+  · intro hl
+    rcases hlost with h | ⟨_, hs⟩
+    · rw [h] at hl
+      rcases hsend with g | g
+      · rw [g]; exact hinv.lostDet hl
+      · exact g
+    · rcases hsend with g | g
+      · rw [g]; exact hs
+      · exact g
 
 /- ---------------------------------------------------------------- contextSend -/
 
 theorem csend_none (send ptr : Bool) (msg : Option (List Byte)) (ans : Int) :
-    contextSend send ptr none msg ans = ⟨Err.BadArgument.code, none, none⟩ := rfl
+    contextSend send ptr none msg ans = ⟨Err.BadArgument.code, none, none, none⟩ := rfl
 
 /-- the outcomes of `contextSend` on an armed request -/
 theorem csend_some (send ptr : Bool) (r : Req) (msg : Option (List Byte)) (ans : Int) :
     let s := contextSend send ptr (some r) msg ans
-    (s.call = none ∧ (s.rd = none ∨ s.rd = some r) ∧ ¬ (send = true ∧ ptr = true)) ∨
-    (send = true ∧ ptr = true ∧ 0 ≤ ans ∧ s.call = some ⟨r.tag, mark r.val, msg, true⟩ ∧ s.rd = none ∧ s.ret = ans) ∨
+    (send = false ∧ s.call = none ∧ s.rd = none ∧ s.dropped = some r.tag) ∨
+    (send = true ∧ ptr = false ∧ s.call = none ∧ s.rd = some r ∧ s.dropped = none) ∨
+    (send = true ∧ ptr = true ∧ 0 ≤ ans ∧ s.call = some ⟨r.tag, mark r.val, msg, true⟩ ∧ s.rd = none ∧ s.ret = ans ∧ s.dropped = none) ∨
     (send = true ∧ ptr = true ∧ ans < 0 ∧ s.call = some ⟨r.tag, mark r.val, msg, false⟩ ∧
-      s.rd = some ⟨unmark (mark r.val), r.tag⟩ ∧ s.ret = ans) := by
+      s.rd = some ⟨unmark (mark r.val), r.tag⟩ ∧ s.ret = ans ∧ s.dropped = none) := by
   unfold contextSend
   cases send <;> cases ptr <;> simp
   by_cases h : 0 ≤ ans
@@ -147,24 +193,29 @@ theorem csend_some (send ptr : Bool) (r : Req) (msg : Option (List Byte)) (ans :
     simp [h, this]
 
 /-- hypotheses of `inv_answer` from the `contextSend` outcomes -/
-theorem csend_shape (send ptr : Bool) (r : Req) (msg : Option (List Byte)) (ans : Int) (log : List Sent) :
+theorem csend_shape (send ptr : Bool) (r : Req) (msg : Option (List Byte)) (ans : Int) (log : List Sent) (lost : List Nat) :
     let s := contextSend send ptr (some r) msg ans
     (addCall log s.call = log ∨ ∃ m ok, addCall log s.call = log ++ [⟨r.tag, mark r.val, m, ok⟩] ∧ (ok = true → s.rd = none)) ∧
-    (s.rd = none ∨ ∃ r', s.rd = some r' ∧ r'.tag = r.tag ∧ mark r'.val = mark r.val) := by
+    (s.rd = none ∨ ∃ r', s.rd = some r' ∧ r'.tag = r.tag ∧ mark r'.val = mark r.val) ∧
+    (addLost lost s.dropped = lost ∨ (addLost lost s.dropped = lost ++ [r.tag] ∧ send = false)) ∧
+    ((∃ e ∈ addCall log s.call, e.tag = r.tag) ∨ r.tag ∈ addLost lost s.dropped ∨ s.rd ≠ none) := by
   intro s
-  rcases csend_some send ptr r msg ans with ⟨h1, h2, _⟩ | ⟨_, _, _, h1, h2, _⟩ | ⟨_, _, _, h1, h2, _⟩
-  · refine ⟨Or.inl (by simp [s, h1, addCall]), ?_⟩
-    rcases h2 with h2 | h2
-    · exact Or.inl h2
-    · exact Or.inr ⟨r, h2, rfl, rfl⟩
-  · exact ⟨Or.inr ⟨msg, true, by simp [s, h1, addCall], fun _ => h2⟩, Or.inl h2⟩
+  rcases csend_some send ptr r msg ans with ⟨h0, h1, h2, h3⟩ | ⟨_, _, h1, h2, h3⟩ | ⟨_, _, _, h1, h2, _, h3⟩ | ⟨_, _, _, h1, h2, _, h3⟩
+  · exact ⟨Or.inl (by simp [s, h1, addCall]), Or.inl h2, Or.inr ⟨by simp [s, h3, addLost], h0⟩,
+      Or.inr (Or.inl (by simp [s, h3, addLost]))⟩
+  · exact ⟨Or.inl (by simp [s, h1, addCall]), Or.inr ⟨r, h2, rfl, rfl⟩, Or.inl (by simp [s, h3, addLost]),
+      Or.inr (Or.inr (by simp [s, h2]))⟩
+  · exact ⟨Or.inr ⟨msg, true, by simp [s, h1, addCall], fun _ => h2⟩, Or.inl h2, Or.inl (by simp [s, h3, addLost]),
+      Or.inl ⟨⟨r.tag, mark r.val, msg, true⟩, by simp [s, h1, addCall], rfl⟩⟩
   · exact ⟨Or.inr ⟨msg, false, by simp [s, h1, addCall], fun h => by cases h⟩,
-      Or.inr ⟨_, h2, rfl, mark_unmark_mark r.val⟩⟩
+      Or.inr ⟨_, h2, rfl, mark_unmark_mark r.val⟩, Or.inl (by simp [s, h3, addLost]),
+      Or.inl ⟨⟨r.tag, mark r.val, msg, false⟩, by simp [s, h1, addCall], rfl⟩⟩
 
 /- ---------------------------------------------------------------- the operations keep the invariant -/
 
 theorem inv_of_same (c c' : Ctx) (hinv : Inv c) (h1 : c'.cur = c.cur) (h2 : c'.handles = c.handles) (h3 : c'.log = c.log)
-    (h4 : c'.nextTag = c.nextTag) (h5 : c'.arms = c.arms) : Inv c' := by
+    (h4 : c'.nextTag = c.nextTag) (h5 : c'.arms = c.arms) (h6 : c'.lost = c.lost)
+    (h7 : c'.send = c.send ∨ c'.send = false) (h8 : c'.ptr = c.ptr) : Inv c' := by
   have hs : ∀ s, c'.slot s = c.slot s := by intro s; cases s <;> simp [Ctx.slot, h1, h2]
   constructor
   · intro s r h; rw [h4]; exact hinv.lt s r (hs s ▸ h)
@@ -175,18 +226,39 @@ theorem inv_of_same (c c' : Ctx) (hinv : Inv c) (h1 : c'.cur = c.cur) (h2 : c'.h
   · intro e he; rw [h5]; exact hinv.logId e (h3 ▸ he)
   · rw [h3]; exact hinv.ordered
   · rw [h5, h4]; exact hinv.armsLen
+  · intro hp t ht hne
+    rw [h8] at hp
+    rw [h4] at ht; rw [h5] at hne
+    rcases hinv.covered hp t ht hne with ⟨s, r, g1, g2⟩ | ⟨e, he, g⟩ | g
+    · exact Or.inl ⟨s, r, by rw [hs]; exact g1, g2⟩
+    · exact Or.inr (Or.inl ⟨e, by rw [h3]; exact he, g⟩)
+    · exact Or.inr (Or.inr (by rw [h6]; exact g))
+  · intro hl
+    rw [h6] at hl
+    rcases h7 with g | g
+    · rw [g]; exact hinv.lostDet hl
+    · exact g
 
 theorem inv_reply (c : Ctx) (msg : Option (List Byte)) (ans : Int) (hinv : Inv c) : Inv (reply c msg ans).2 := by
   unfold reply
   cases hc : c.cur with
-  | none => exact inv_of_same c _ hinv (by simp [csend_none, hc]) rfl (by simp [csend_none, addCall]) rfl rfl
+  | none =>
+    exact inv_of_same c _ hinv (by simp [csend_none, hc]) rfl (by simp [csend_none, addCall]) rfl rfl
+      (by simp [csend_none, addLost]) (Or.inl rfl) rfl
   | some r =>
-    obtain ⟨hl, hs⟩ := csend_shape c.send c.ptr r msg ans c.log
-    exact inv_answer c _ none r hinv (by simp [Ctx.slot, hc])
-      (by intro s hs; cases s with
-          | none => exact absurd rfl hs
-          | some k => simp [Ctx.slot])
-      rfl rfl (by simpa [Ctx.slot] using hl) (by simpa [Ctx.slot] using hs)
+    obtain ⟨hl, hs, hlo, hd⟩ := csend_shape c.send c.ptr r msg ans c.log c.lost
+    refine inv_answer c _ none r hinv (by simp [Ctx.slot, hc]) ?_ rfl rfl ?_ ?_ hlo (Or.inl rfl) rfl ?_
+    · intro s hs; cases s with
+      | none => exact absurd rfl hs
+      | some k => simp only [Ctx.slot]
+    · simp only [Ctx.slot]; exact hl
+    · simp only [Ctx.slot]; exact hs
+    · simp only [Ctx.slot]
+      intro _ hn
+      rcases hd with h | h | h
+      · exact Or.inl h
+      · exact Or.inr h
+      · exact absurd hn h
 
 theorem getD_set_self (l : List (Option Req)) (k : Nat) (v : Option Req) (h : k < l.length) :
     (l.set k v).getD k none = v := by
@@ -208,11 +280,11 @@ theorem inv_dreply (c : Ctx) (k : Nat) (msg : Option (List Byte)) (ans : Int) (h
   | none => exact hinv
   | some r =>
     have hlt := getD_some_lt _ _ _ hk
-    obtain ⟨hl, hs⟩ := csend_shape c.send c.ptr r msg ans c.log
+    obtain ⟨hl, hs, hlo, hd⟩ := csend_shape c.send c.ptr r msg ans c.log c.lost
     have h0 : c.slot (some k) = some r := by simp only [Ctx.slot]; exact hk
     simp only []
     split
-    · refine inv_answer c _ (some k) r hinv h0 ?_ rfl rfl ?_ ?_
+    · refine inv_answer c _ (some k) r hinv h0 ?_ rfl rfl ?_ ?_ hlo (Or.inl rfl) rfl ?_
       · intro s hs'
         cases s with
         | none => simp only [Ctx.slot]
@@ -221,7 +293,13 @@ theorem inv_dreply (c : Ctx) (k : Nat) (msg : Option (List Byte)) (ans : Int) (h
           simp only [Ctx.slot]; exact getD_set_ne _ _ _ _ this
       · simp only [Ctx.slot]; rw [getD_set_self _ _ _ hlt]; exact hl
       · simp only [Ctx.slot]; rw [getD_set_self _ _ _ hlt]; exact hs
-    · refine inv_answer c _ (some k) r hinv h0 ?_ rfl rfl ?_ ?_
+      · simp only [Ctx.slot]; rw [getD_set_self _ _ _ hlt]
+        intro _ hn
+        rcases hd with h | h | h
+        · exact Or.inl h
+        · exact Or.inr h
+        · exact absurd hn h
+    · refine inv_answer c _ (some k) r hinv h0 ?_ rfl rfl ?_ ?_ hlo (Or.inl rfl) rfl ?_
       · intro s hs'
         cases s with
         | none => simp only [Ctx.slot]
@@ -233,27 +311,45 @@ theorem inv_dreply (c : Ctx) (k : Nat) (msg : Option (List Byte)) (ans : Int) (h
         · exact Or.inl hl
         · exact Or.inr ⟨m, ok, hl, fun _ => rfl⟩
       · simp only [Ctx.slot]; rw [getD_set_self _ _ _ hlt]; exact Or.inl rfl
+      · -- the handle is released: with a transport pointer the transport was called, or it is detached
+        simp only [Ctx.slot]
+        intro hp _
+        rcases csend_some c.send c.ptr r msg ans with ⟨_, _, _, h3⟩ | ⟨_, h2, _, _, _⟩ | ⟨_, _, _, h1, _, _, _⟩ | ⟨_, _, _, h1, _, _, _⟩
+        · exact Or.inr (by simp [h3, addLost])
+        · rw [hp] at h2; cases h2
+        · exact Or.inl ⟨⟨r.tag, mark r.val, msg, true⟩, by simp [h1, addCall], rfl⟩
+        · exact Or.inl ⟨⟨r.tag, mark r.val, msg, false⟩, by simp [h1, addCall], rfl⟩
 
 theorem inv_dropCtx (c : Ctx) (ans : Int) (hinv : Inv c) : Inv (dropCtx c ans) := by
   unfold dropCtx
+  have hsend : ∀ b : Bool, (if c.refs - 1 ≠ 0 then false else b) = b ∨ (if c.refs - 1 ≠ 0 then false else b) = false := by
+    intro b; split <;> simp
   by_cases hcond : c.send = true ∧ c.cur.isSome = true
   · rw [if_pos hcond]
     cases hc : c.cur with
     | none => simp [hc] at hcond
     | some r =>
-      obtain ⟨hl, hs⟩ := csend_shape c.send c.ptr r none ans c.log
-      exact inv_answer c _ none r hinv (by simp [Ctx.slot, hc])
-        (by intro s hs; cases s with
-            | none => exact absurd rfl hs
-            | some k => simp [Ctx.slot])
-        rfl rfl (by simpa [Ctx.slot] using hl) (by simpa [Ctx.slot] using hs)
+      obtain ⟨hl, hs, hlo, hd⟩ := csend_shape c.send c.ptr r none ans c.log c.lost
+      refine inv_answer c _ none r hinv (by simp [Ctx.slot, hc]) ?_ rfl rfl ?_ ?_ hlo (hsend c.send) rfl ?_
+      · intro s hs; cases s with
+        | none => exact absurd rfl hs
+        | some k => simp only [Ctx.slot]
+      · simp only [Ctx.slot]; exact hl
+      · simp only [Ctx.slot]; exact hs
+      · simp only [Ctx.slot]
+        intro _ hn
+        rcases hd with h | h | h
+        · exact Or.inl h
+        · exact Or.inr h
+        · exact absurd hn h
   · rw [if_neg hcond]
-    exact inv_of_same c _ hinv rfl rfl (by simp [addCall]) rfl rfl
+    exact inv_of_same c _ hinv rfl rfl (by simp [addCall]) rfl rfl (by simp [addLost]) (hsend c.send) rfl
 
-theorem inv_arm_aux (c c' : Ctx) (bytes : List Byte) (hinv : Inv c)
+theorem inv_arm_aux (c c' : Ctx) (bytes : List Byte) (hinv : Inv c) (hnone : c.cur = none)
     (hcur : c'.cur = if bytes.length = 0 then none else some ⟨bytes, c.nextTag⟩)
     (hh : c'.handles = c.handles) (hlog : c'.log = c.log) (hnext : c'.nextTag = c.nextTag + 1)
-    (harms : c'.arms = c.arms ++ [bytes]) : Inv c' := by
+    (harms : c'.arms = c.arms ++ [bytes]) (hlost : c'.lost = c.lost) (hsend : c'.send = c.send)
+    (hptr : c'.ptr = c.ptr) : Inv c' := by
   have hlen := hinv.armsLen
   have hget : ∀ t, t < c.nextTag → (c.arms ++ [bytes]).getD t [] = c.arms.getD t [] := by
     intro t ht
@@ -302,17 +398,43 @@ theorem inv_arm_aux (c c' : Ctx) (bytes : List Byte) (hinv : Inv c)
     rw [harms, hget _ (hinv.logLt e he)]; exact hinv.logId e he
   · rw [hlog]; exact hinv.ordered
   · rw [harms, hnext]; simp [hlen]
+  · intro hp t ht hne
+    rw [hptr] at hp
+    rw [hnext] at ht; rw [harms] at hne
+    by_cases htn : t = c.nextTag
+    · subst htn
+      rw [hnew] at hne
+      have hb : ¬ bytes.length = 0 := by intro h0; exact hne (List.eq_nil_of_length_eq_zero h0)
+      exact Or.inl ⟨none, ⟨bytes, c.nextTag⟩, by simp [Ctx.slot, hcur, hb], rfl⟩
+    · have ht' : t < c.nextTag := by omega
+      rw [hget t ht'] at hne
+      rcases hinv.covered hp t ht' hne with ⟨s, r, g1, g2⟩ | ⟨e, he, g⟩ | g
+      · cases s with
+        | none => simp [Ctx.slot, hnone] at g1
+        | some k => exact Or.inl ⟨some k, r, by simpa [Ctx.slot, hh] using g1, g2⟩
+      · exact Or.inr (Or.inl ⟨e, by rw [hlog]; exact he, g⟩)
+      · exact Or.inr (Or.inr (by rw [hlost]; exact g))
+  · intro hl; rw [hlost] at hl; rw [hsend]; exact hinv.lostDet hl
 
 theorem inv_arm (c : Ctx) (bytes : List Byte) (hinv : Inv c) : Inv (arm c bytes).2 := by
   unfold arm
   split
   · exact hinv
-  · exact inv_arm_aux c _ bytes hinv rfl rfl rfl rfl rfl
+  · rename_i hcur
+    split
+    · exact hinv
+    · exact inv_arm_aux c _ bytes hinv (by simpa using hcur) rfl rfl rfl rfl rfl rfl rfl rfl
 
 theorem inv_defer_aux (c c' : Ctx) (r : Req) (hinv : Inv c) (hc : c.cur = some r)
     (hcur : c'.cur = none) (hh : c'.handles = c.handles ++ [some r]) (hlog : c'.log = c.log)
-    (hnext : c'.nextTag = c.nextTag) (harms : c'.arms = c.arms) : Inv c' := by
+    (hnext : c'.nextTag = c.nextTag) (harms : c'.arms = c.arms) (hlost : c'.lost = c.lost) (hsend : c'.send = c.send)
+    (hptr : c'.ptr = c.ptr) : Inv c' := by
   -- the request moves from the context to the new handle
+  have hnew : c'.slot (some c.handles.length) = some r := by
+    simp [Ctx.slot, hh, List.getD_eq_getElem?_getD]
+  have hold : ∀ k, k < c.handles.length → c'.slot (some k) = c.slot (some k) := by
+    intro k hk
+    simp [Ctx.slot, hh, List.getD_eq_getElem?_getD, List.getElem?_append_left hk]
   have hslot : ∀ s r2, c'.slot s = some r2 →
       (s = some c.handles.length ∧ c.slot none = some r2) ∨ (∃ k, s = some k ∧ k < c.handles.length ∧ c.slot (some k) = some r2) := by
     intro s r2 h
@@ -352,6 +474,20 @@ theorem inv_defer_aux (c c' : Ctx) (r : Req) (hinv : Inv c) (hc : c.cur = some r
   · rw [hlog, harms]; exact hinv.logId
   · rw [hlog]; exact hinv.ordered
   · rw [harms, hnext]; exact hinv.armsLen
+  · intro hp t ht hne
+    rw [hptr] at hp
+    rw [hnext] at ht; rw [harms] at hne
+    rcases hinv.covered hp t ht hne with ⟨s, r1, g1, g2⟩ | ⟨e, he, g⟩ | g
+    · cases s with
+      | none =>
+        simp only [Ctx.slot, hc] at g1; cases g1
+        exact Or.inl ⟨some c.handles.length, r, hnew, g2⟩
+      | some k =>
+        have hk : k < c.handles.length := getD_some_lt _ _ _ (by simpa [Ctx.slot] using g1)
+        exact Or.inl ⟨some k, r1, by rw [hold k hk]; exact g1, g2⟩
+    · exact Or.inr (Or.inl ⟨e, by rw [hlog]; exact he, g⟩)
+    · exact Or.inr (Or.inr (by rw [hlost]; exact g))
+  · intro hl; rw [hlost] at hl; rw [hsend]; exact hinv.lostDet hl
 
 theorem inv_defer (c : Ctx) (hinv : Inv c) : Inv (defer c).2 := by
   unfold defer
@@ -361,7 +497,7 @@ theorem inv_defer (c : Ctx) (hinv : Inv c) : Inv (defer c).2 := by
     simp only []
     split
     · exact hinv
-    · exact inv_defer_aux c _ r hinv hc rfl rfl rfl rfl rfl
+    · exact inv_defer_aux c _ r hinv hc rfl rfl rfl rfl rfl rfl rfl rfl
 
 theorem inv_step (c : Ctx) (op : Op) (hinv : Inv c) : Inv (step c op) := by
   cases op with
@@ -379,6 +515,23 @@ theorem inv_run (c : Ctx) (ops : List Op) (hinv : Inv c) : Inv (run c ops) := by
     split
     · exact ih _ (inv_step c op hinv)
     · exact ih _ hinv
+
+theorem step_ptr (c : Ctx) (op : Op) : (step c op).ptr = c.ptr := by
+  cases op with
+  | arm b => simp only [step, arm]; split <;> (try split) <;> rfl
+  | reply m a => rfl
+  | defer => simp only [step, defer]; split <;> (try split) <;> rfl
+  | dreply k m a => simp only [step, dreply]; split <;> (try split) <;> rfl
+  | dropCtx a => rfl
+
+theorem run_ptr (c : Ctx) (ops : List Op) : (run c ops).ptr = c.ptr := by
+  induction ops generalizing c with
+  | nil => rfl
+  | cons op ops ih =>
+    unfold run
+    split
+    · rw [ih, step_ptr]
+    · exact ih c
 
 /-- at most one accepted call per tag in an ordered log -/
 theorem count_le_one (log : List Sent) (t : Nat)
